@@ -144,7 +144,7 @@ func run(r *eng.Runner) {
 		main := append(append(probe("pre"), inner...), probe("post")...)
 		g.files["/main"] = main
 		label := fmt.Sprint("nest", kinds)
-		c, ok := prog.Build(g.files, ctx, globals, "scope", label, false)
+		c, ok := prog.BuildTwice(g.files, ctx, prog.Vary(ctx), globals, "scope", label, false)
 		if !ok {
 			r.AddExtra("programs_outside_fragment", 1)
 			return
@@ -178,7 +178,7 @@ func run(r *eng.Runner) {
 				second := g.build(k2, nil)
 				main := append(append(append(probe("pre"), first...), probe("mid")...), append(second, probe("post")...)...)
 				g.files["/main"] = main
-				c, ok := prog.Build(g.files, ctx, globals, "scope", fmt.Sprint("seq", k1, k2, k3), false)
+				c, ok := prog.BuildTwice(g.files, ctx, prog.Vary(ctx), globals, "scope", fmt.Sprint("seq", k1, k2, k3), false)
 				if !ok {
 					r.AddExtra("programs_outside_fragment", 1)
 					continue
